@@ -46,7 +46,9 @@ func drawC03(t *rapid.T) *Case {
 	maxPrio := 0
 	for ci := 0; ci < n; ci++ {
 		if ci > 0 && drawBool(t, "h1client", 35) {
-			hello := DrawHello(t, HelloOpts{Proto: "h1"})
+			// a connection that did not negotiate HTTP/2: ALPN http/1.1, or no ALPN at all
+			np := []string{"h1", "none"}[rapid.IntRange(0, 1).Draw(t, "nonh2proto")]
+			hello := DrawHello(t, HelloOpts{Proto: np})
 			cp := &ClientPlan{ID: ci, Addr: drawAddr(t, ci), Hello: hello}
 			r := ReqSpec{Tag: fmt.Sprintf("c%d-r0", ci), Method: "GET", Path: "/h1", Host: "h1.verif.test"}
 			cp.Steps = []Step{{Kind: "connect"}, {Kind: "h1req", Pieces: [][]byte{r.H1()}, Tag: r.Tag}, {Kind: "close"}}
